@@ -4,7 +4,8 @@ import BigtoolsModel.Tiler4
 import BigtoolsModel.SweepProof
 import BigtoolsModel.ZoomQueryBytes
 import BigtoolsModel.WriterSections
-import BigtoolsModel.AtomsGen
+import BigtoolsModel.AtomsTiler
+import BigtoolsModel.AtomsSweep
 import BigtoolsModel.OverlapsGen
 /-! # C08 — bigBed zoom levels are faithful reductions of coverage depth
 
